@@ -803,9 +803,14 @@ class J10(QueryJudge):
         if new and any(nonuniform_or(c) for _, cs in entries for c in cs) and 'C10-F1' in self.findings:
             model = drv['model']
             model_obs = canon(model[1], case) if model[0] == 'rows' else model
+            # with the cache disabled the implementation gives exactly the (defective) answer of the transliterated model
+            off_is_model = all(canon(o[1], case) == model_obs for k, cfg in res['impl'].items() if k.startswith('off')
+                               for o in cfg['outs'] if o[0] == 'rows')
             keep = []
             for what, payload in new:
-                if payload.get('observed') == model_obs:
+                if payload.get('observed') == model_obs or ('(caching on' in what and off_is_model and model_obs != payload.get('expected')):
+                    # the input is inside the finding's scope and reproduces it; what the result cache makes of the
+                    # already wrong intersection is not a separate finding
                     self.known('C10-F1')
                 else:
                     keep.append((what, payload))
